@@ -14,7 +14,7 @@
    implementation (computed from the definition's AST). *)
 From Coq Require Import List NArith.
 From BpafModel Require Import Shell Complete Message CompEval.
-From BpafLemmas Require Import ShellLaws CompleteLaws CompInert CompAlways.
+From BpafLemmas Require Import ShellLaws CompleteLaws CompInert CompAlways CompNever.
 Import ListNotations.
 
 (* a flag/argument name is offered only if the typed text is empty or `-`, or is exactly its short
@@ -134,6 +134,32 @@ Theorem C14_level_answers_with_completion_partial :
 Proof. exact level_answers_with_completion. Qed.
 Print Assumptions C14_level_answers_with_completion_partial.
 
+(* The first clause of the property, for EVERY parser definition of the model (every combinator arbitrarily nested,
+   subcommands adjacent or not, adjacent groups, completers): when completion is requested -- Args::set_comp or a marker
+   on the line, with one of the output revisions bpaf knows (0, 1, 7, 8, 9) -- and the line holds an item with valid
+   UTF-8 text, the outcome of run_inner is NEVER a parsed value and NEVER an error message.  (What is left besides
+   completion output: stdout -- the usage screen of a `fallback_to_usage` level entered with nothing in its scope --
+   and the model's explicit panic / fuel outcomes, which C04 speaks about.)  By mutual induction over the parser
+   (Lemmas/CompNever.v): the completion state stays switched on with its revision, the items of the line never change,
+   every final failure a subcommand hands up is completion output or stdout. *)
+Theorem C14_request_never_value_or_error :
+  forall feat env o name argv rv0,
+    let x := fst (c_initial_state o name argv rv0) in
+    forall c, snd x = Some c -> rev_ok (cs_rev c) -> lit_items (fst x) <> [] ->
+    match c_run_inner feat env o name argv rv0 with
+    | OutOk _ | OutStderr _ => False
+    | _ => True
+    end.
+Proof. exact request_never_value_or_error. Qed.
+Print Assumptions C14_request_never_value_or_error.
+
+(* the invariant behind it, for every parser and every state with the request switched on *)
+Theorem C14_request_kept_by_every_parser :
+  forall rv its, rev_ok rv -> (forall s, items s = its -> lit_items s <> []) ->
+  forall env docgen p x, xinv rv its x -> xinv rv its (snd (ceval env docgen p x)) /\ rfin (fst (ceval env docgen p x)).
+Proof. intros rv its Hr Hl env docgen p. exact (proj1 (ceval_good_all rv its Hr Hl env docgen) p). Qed.
+Print Assumptions C14_request_kept_by_every_parser.
+
 (* hidden items are never offered: whatever a parser under hide() pushed is dropped, the hints after it are the hints
    collected before it *)
 Theorem C14_hidden_parser_offers_nothing :
@@ -169,3 +195,12 @@ Example C14_example_first_stage :
               (XOptions (XFlag (mkNamed [118%N] [] [] None) (VBool true) (Some (VBool false))) default_info)
               None [[45%N]] (Some 0) = OutCompletion t.
 Proof. vm_compute. eexists. reflexivity. Qed.
+
+(* non-vacuity of C14_request_never_value_or_error: its premises hold for `--al` typed after a positional *)
+Example C14_example_premises :
+  let o := XOptions (XCon (XCons (XPos [70%N] TyString Unrestricted None)
+                          (XCons (XFlag (mkNamed [] [[97;108;112;104;97]%N] [] None) (VBool true) (Some (VBool false))) XNil)))
+                    default_info in
+  let x := fst (c_initial_state o None [[120%N]; [45;45;97;108]%N] (Some 0)) in
+  (exists c, snd x = Some c /\ rev_ok (cs_rev c)) /\ lit_items (fst x) <> [].
+Proof. vm_compute. split; [eexists; split; [reflexivity|left; reflexivity]|discriminate]. Qed.
